@@ -126,3 +126,18 @@ Theorem minify_avoids_pinned_nested_refuted :
   wp_names = Some ([97], [97]).
 Proof. exact minify_pinned_nested_collision. Qed.
 Print Assumptions minify_avoids_pinned_nested_refuted.
+
+(* REFUTED (genuine defect, known finding C15-with-pinned-nested-name-captured-by-numbered-name):
+   "a name assigned by the number renamer never equals the name of a pinned
+   symbol visible in the same scope".  Same root as the previous theorem: a
+   symbol pinned in a nested scope (referenced inside `with`) is neither
+   reserved nor recorded in its numberScope; the parameter "e" below it is
+   renamed "e2" because "e" is a free name, and lands on the pinned "e2".
+   number_renamer_no_shadow (between renamed symbols) and
+   number_renamer_avoids_reserved (the computed reserved set) do hold. *)
+Theorem number_renamer_pinned_nested_refuted :
+  wf_number np_syms [0%nat] (sc_children np_module) = true /\
+  In [2%nat; 1%nat; 0%nat] (vis_forest np_syms (sc_children np_module) (map (follow np_syms) [0%nat])) /\
+  np_names = Some ([101; 50], [101; 50]).
+Proof. exact number_pinned_nested_collision. Qed.
+Print Assumptions number_renamer_pinned_nested_refuted.
